@@ -1,52 +1,74 @@
 """C15 - evaluation is pure and independent of order, history and hash seed.
 
-  C15.R1  the graph is frozen after construction; graph mutators are reachable only from the constructor; all nodes exist before
-          the first import edge is created
-  C15.R2  no long-lived object is written during evaluation (rule objects, the evaluable and its graph, argument lists); one
-          reviewed exception: the idempotent alias rewrite of Rule._configuration
-  C15.R3  unordered (set) iteration never reaches text without `sorted`; no set is both grown and shrunk inside one loop over an
-          unordered collection (iteration-order dependent result)
-  C15.R4  no function writes class-level or module-level state (hidden state shared between scans / evaluations)
+  C15.R1  every class that keeps a networkx graph freezes it at the end of its constructor (decided on the inlined view of the
+          constructor by graph-mutation events: nothing modifies the graph after nx.freeze, which lies on every path to the exit);
+          graph mutators are reachable only from the constructor; every module is registered as a node before the first edge is
+          created from the imports argument
+  C15.R2  nothing reachable from an evaluation entry point (public API: every concrete assert_applies, the query interface of the
+          evaluable architecture) writes to the entry point's receiver, to its arguments or to anything reachable from them; decided
+          by an ownership analysis (c15_roots.py) that knows fresh / owned / handed-in objects, independent of variable and helper
+          names.  One kind of write is accepted: a self-rewrite `self.F = h(self.F)` that is idempotent (rebuilt only under a flag of
+          the old value which the rebuilt value clears) and does not look at the other arguments
+  C15.R3  unordered (set) iteration never reaches text without `sorted`; no container is both grown and shrunk inside one loop over
+          an unordered collection (helpers expanded)
+  C15.R4  no function writes class-level, module-level or escaping-closure state, also not through an alias; no observable cache
+          (memoised functions are accepted only when they are pure functions of immutable arguments with an immutable result)
+
+Anchors are public API names (assert_applies, get_dependencies, ... , the constructor signature (modules, imports, ...)), library
+names (networkx.freeze, DiGraph.add_node / add_edge, dataclasses.replace, functools.lru_cache) and types - never private helpers,
+local names or statement shapes.  R3 and R4 carry positive fixtures (c15_fixtures/) because their expected count on the tree is 0.
 """
 
 from __future__ import annotations
 
 import ast
 
-from core.effects import Effects, Write
+from core.effects import Effects
 from core.flow import Flow, Spec
-from core.guards import atom, conds_formula, f_not, implies
+from core.guards import atom, implies
 from core.inline_stmt import inline_view
-from core.loader import AnalysisError, FuncInfo, Repo, ancestors, calls_in, header, norm, own_nodes, parent
+from core.loader import AnalysisError, FuncInfo, Repo, ancestors, calls_in, header, norm, own_nodes
 from core.report import Result
-from core.types import is_set_type, kind, members
+from core.types import is_set_type, members
 
 from .c15_roots import FRESH, EffectSummaries, Roots
-from .common import callees_of, cfg_of, conds, dotted, guard_formula, is_attr_call, iter_sources, loops_around, reachable_funcs, stmt_of, types_of, where
+from .common import callees_of, cfg_of, dotted, guard_formula, iter_sources, loops_around, reachable_funcs, stmt_of, types_of, where
 
-NXGRAPH = "pytestarch.eval_structure.networkxgraph"
-EVAL_GRAPH = "pytestarch.eval_structure.evaluable_graph"
-RULE = "pytestarch.query_language.rule"
-LAYER_RULE = "pytestarch.query_language.layered_architecture_rule"
-DIAGRAM_RULE = "pytestarch.diagram_extension.diagram_rule"
-MULTI = "pytestarch.query_language.multiple_rule_applier"
 
 GRAPH_MUTATORS = {"add_node", "add_edge", "add_nodes_from", "add_edges_from", "remove_node", "remove_edge", "remove_nodes_from", "remove_edges_from", "clear", "update", "add_weighted_edges_from", "clear_edges"}
 
 
+QUERY_API = ("get_dependencies", "any_dependencies_from_dependents_to_modules_other_than_dependent_upons", "any_other_dependencies_on_dependent_upons_than_from_dependents", "visualize", "modules")
+
+
+def _stub(f: FuncInfo) -> bool:
+    """Interface declaration: nothing but a docstring, `pass`, `...` or `raise NotImplementedError`."""
+    if f.is_abstract:
+        return True
+    for st in f.node.body:
+        if isinstance(st, ast.Pass) or (isinstance(st, ast.Expr) and isinstance(st.value, ast.Constant)):
+            continue
+        if isinstance(st, ast.Raise) and st.exc is not None and "NotImplementedError" in norm(st.exc):
+            continue
+        return False
+    return True
+
+
 def evaluation_roots(repo: Repo) -> list[FuncInfo]:
-    roots = [
-        repo.func(RULE, "Rule.assert_applies"),
-        repo.func(LAYER_RULE, "LayerRule.assert_applies"),
-        repo.func(DIAGRAM_RULE, "DiagramRule.assert_applies"),
-        repo.func(MULTI, "MultipleRuleApplier.assert_applies"),
-    ]
-    eg = repo.cls(EVAL_GRAPH, "EvaluableArchitectureGraph")
-    for name in ("get_dependencies", "any_dependencies_from_dependents_to_modules_other_than_dependent_upons", "any_other_dependencies_on_dependent_upons_than_from_dependents", "visualize", "modules"):
-        m = eg.methods.get(name)
-        if m is None:
-            raise AnalysisError(f"EvaluableArchitectureGraph.{name} not found")
-        roots.append(m)
+    """Entry points of an evaluation, found by their public names (the API used by tests and docs), wherever the classes live:
+    every concrete `assert_applies`, and every concrete implementation of the query interface of the evaluable architecture."""
+    roots: list[FuncInfo] = []
+    for ci in sorted(repo.classes.values(), key=lambda c: c.fq):
+        m = ci.methods.get("assert_applies")
+        if m is not None and not _stub(m):
+            roots.append(m)
+    if len(roots) < 3:
+        raise AnalysisError(f"only {len(roots)} concrete assert_applies implementation(s) found (Rule, LayerRule, DiagramRule, MultipleRuleApplier expected)")
+    for name in QUERY_API:
+        impls = [ci.methods[name] for ci in sorted(repo.classes.values(), key=lambda c: c.fq) if name in ci.methods and not _stub(ci.methods[name])]
+        if not impls:
+            raise AnalysisError(f"no concrete implementation of the evaluable architecture's `{name}` found")
+        roots += impls
     return roots
 
 
@@ -687,7 +709,7 @@ def run_r2(repo: Repo, res: Result) -> None:
         mine = [e for e in S.of(r) if e.tag[0][0] in ("self", "param") and e.tag[0][1] == r.fq]
         unknown = [e for e in S.of(r) if e.tag[0][0] == "unknown"]
         seen: set[int] = set()
-        for e in [*mine, *unknown]:
+        for e in mine:
             if id(e.write.node) in seen:
                 continue
             seen.add(id(e.write.node))
@@ -700,6 +722,12 @@ def run_r2(repo: Repo, res: Result) -> None:
                 where(w.fi, w.node),
                 kind="effect",
             )
+        for e in unknown:
+            if id(e.write.node) in seen:
+                continue
+            seen.add(id(e.write.node))
+            w = e.write
+            res.undecide("C15.R2", repo.key(w.fi, stmt_of(w.node)) + f" [via {r.qualname}]", f"`{header(stmt_of(w.node))}` in {w.fi.qualname} writes to `{e.tag[0][1]}`, whose origin could not be determined", where(w.fi, w.node))
         if not mine and not unknown:
             res.add("C15.R2", f"{r.relpath}::{r.qualname}::no long-lived write", True, f"nothing reachable from {r.qualname} writes to its receiver, its arguments or objects reachable from them", where(r, r.node), kind="effect")
     res.add("C15.R2", "evaluation region::writes to fresh objects", True, f"{S.fresh_writes} writes in {len(reach)} reachable functions go to objects created during the evaluation", kind="effect")
@@ -750,6 +778,13 @@ class Order:
             fn = call.func
             if isinstance(fn, ast.Name) and fn.id in ("sorted", "set", "frozenset", "len", "any", "all", "sum", "min", "max"):
                 return set()
+            if isinstance(fn, ast.Name) and fn.id in ("list", "tuple", "iter", "enumerate", "reversed", "map", "filter", "zip") and not names:
+                # a sequence made from an unordered collection is an unordered *sequence* (tag U), no longer "a set" (tag S)
+                tags = set()
+                for a in [*args, *kwargs.values()]:
+                    tags |= set(a)
+                unordered = bool(tags & {"S", "U"}) or any(set_typed(f, a) for a in call.args if not isinstance(a, ast.Starred))
+                return {"U"} if unordered else set()
             if isinstance(fn, ast.Attribute) and fn.attr in ("add", "update", "discard", "remove", "intersection", "union", "difference"):
                 t = T.expr(f, fn.value)
                 if any(m[0] == "b" and m[1] in ("set", "frozenset") for m in members(t)):
@@ -765,7 +800,7 @@ class Order:
                 return frozenset(x for x in tags if x != "U" and (x != "S" or keep_s))
             return tags
 
-        self.flow = Flow(repo, T, Spec(sources=sources, transfer=transfer, post=post, sort_kills={"U"}, loop_tag="U", unordered_tags=frozenset({"S"}), non_absorbed=frozenset({"S"}), unordered_iter=set_typed, objects_carry=False, opaque={"len", "isinstance", "hasattr", "bool", "any", "all", "sum", "min", "max", "set", "frozenset", "sorted"}))
+        self.flow = Flow(repo, T, Spec(sources=sources, transfer=transfer, post=post, sort_kills={"U", "S"}, loop_tag="U", unordered_tags=frozenset({"S"}), non_absorbed=frozenset({"S"}), unordered_iter=set_typed, objects_carry=False, opaque={"len", "isinstance", "hasattr", "bool", "any", "all", "sum", "min", "max", "set", "frozenset", "sorted"}))
 
     def unordered(self, f: FuncInfo, e: ast.expr) -> bool:
         """`e` (an expression of f, or of a view of f) is iterated in an order that depends on the hash seed."""
@@ -911,9 +946,9 @@ def run_r3(repo: Repo, res: Result) -> None:
         good_sinks = {s["f"].name for s in fo.sinks() if s["ok"]} - bad_sinks
         bad_loops = {l["f"].name for l in fo.loops() if l["both"]}
         good_loops = {l["f"].name for l in fo.loops() if not l["both"]} - bad_loops
-        want_bad_sinks = {"joined_directly", "joined_after_copy", "joined_from_loop", "joined_through_helper"}
+        want_bad_sinks = {"joined_directly", "joined_after_copy", "joined_from_loop", "joined_through_helper", "joined_after_copy_of_iterable"}
         want_bad_loops = {"grow_and_shrink", "grow_and_shrink_through_helper"}
-        if bad_sinks != want_bad_sinks or "joined_sorted" not in good_sinks:
+        if bad_sinks != want_bad_sinks or not {"joined_sorted", "joined_after_inplace_sort"} <= good_sinks:
             raise AnalysisError(f"C15.R3 fixture: unordered text sinks not recognised exactly (flagged {sorted(bad_sinks)}, want {sorted(want_bad_sinks)}; accepted {sorted(good_sinks)})")
         if bad_loops != want_bad_loops or not {"two_passes"} <= good_loops or "ordered_pass" in bad_loops:
             raise AnalysisError(f"C15.R3 fixture: order-dependent loop bodies not recognised exactly (flagged {sorted(bad_loops)}, want {sorted(want_bad_loops)}; accepted {sorted(good_loops)})")
@@ -1066,16 +1101,19 @@ def run_r4(repo: Repo, res: Result) -> None:
 def run(repo: Repo) -> Result:
     res = Result("C15")
     res.explanation = (
-        "Decides purity structurally: (R1) the graph is frozen after construction, graph mutators are reachable only from the constructor and all "
-        "nodes exist before import edges are created; (R2) nothing reachable from an evaluation entry point (assert_applies x4, the three "
-        "queries, visualize, modules) writes to its receiver, its arguments or objects derived from them - writes go only to objects created "
-        "during the evaluation; the single reviewed exception (alias rewrite of Rule._configuration) is checked to be idempotent; (R3) no set "
-        "iteration order reaches text (join / f-string / str) without sorted, and no container is grown and shrunk inside one loop over a set; "
-        "(R4) no function writes class-level or module-level state and nothing is memoised. Purity implies history-, re-application- and "
-        "interleaving-independence of verdicts and messages; ordered sinks imply hash-seed independence of texts."
+        "Decides purity structurally: (R1) every graph-holding class freezes its graph at the end of its constructor, nothing modifies a "
+        "graph after construction (mutators reachable only from the constructor) and all modules are nodes before the first import edge is "
+        "created; (R2) nothing reachable from an evaluation entry point (every concrete assert_applies, the query interface get_dependencies / "
+        "any_* / visualize / modules) writes to its receiver, its arguments or objects reachable from them - decided by an ownership analysis "
+        "(fresh / owned / handed-in objects, field- and depth-sensitive, inter-procedural); the single accepted kind of write, a self-rewrite "
+        "of a field of the entry point's receiver (alias rewrite of Rule._configuration), is checked to be idempotent and independent of the "
+        "architecture; (R3) no set iteration order reaches text (join / f-string / str) without sorted, and no container is grown and shrunk "
+        "inside one loop over an unordered collection; (R4) no function writes class-level, module-level or escaping-closure state and no "
+        "observable cache exists. Purity implies history-, re-application- and interleaving-independence of verdicts and messages; ordered "
+        "sinks imply hash-seed independence of texts."
     )
-    res.not_decided = "seed/ordering effects inside networkx/matplotlib; list order of `modules` (only set equality is claimed); the deprecated decorator's warnings.simplefilter calls (global library state, observed, outside the property's observables)."
-    res.trusted_base = ["networkx.freeze makes every mutator raise", "engine resolver / call graph (CHA with name-based fallback) and freshness analysis"]
+    res.not_decided = "seed/ordering effects inside networkx/matplotlib; list order of `modules` (only set equality is claimed); dependence of texts on the order in which list arguments were given, other than through sets; the deprecated decorator's warnings.simplefilter calls (global library state, observed, outside the property's observables)."
+    res.trusted_base = ["networkx.freeze makes every mutator raise", "engine resolver / call graph (CHA with name-based fallback)", "ownership analysis of rules/c15_roots.py: flow-insensitive per function, contents of containers kept apart to depth 3, dict keys and values of immutable static type carry no ownership"]
     run_r1(repo, res)
     run_r2(repo, res)
     run_r3(repo, res)
